@@ -382,7 +382,16 @@ def lattice_observations(lat):
         'mps_sites': _observe(lambda: [type(s).__name__ + ':%d' % s.dim for s in lat.mps_sites()]),
         'position': _observe(lambda: np.asarray(lat.position(lat.mps2lat_idx(idx)))),
         'pairs': _observe(lambda: sorted(lat.pairs.keys())),
+        # documented read-only properties, backed by the lazily filled caches _reciprocal_basis / _BZ (whose stored values
+        # are not compared): what the property RETURNS must be the same for the original and the loaded lattice
+        'reciprocal_basis': _observe(lambda: np.asarray(lat.reciprocal_basis)),
+        'BZ': _observe(lambda: _bz_record(lat.BZ)),
     }
+
+
+def _bz_record(bz):
+    return (type(bz).__name__, int(bz.dim), np.asarray(bz.basis).shape, np.asarray(bz.basis).tolist(),
+            np.asarray(bz.vertices).shape, np.asarray(bz.vertices).tolist())
 
 
 def lattice_checks(pairs):
@@ -391,7 +400,8 @@ def lattice_checks(pairs):
         oa, ob = lattice_observations(a), lattice_observations(b)
         for k in oa:
             if oa[k] != ob[k]:
-                probs.append('%s: lattice observation %s: %s became %s' % (path or '<root>', k, repr(oa[k])[:120], repr(ob[k])[:120]))
+                probs.append('%s: lattice observation %s of %s: %s became %s' % (path or '<root>', k, type(a).__name__, repr(oa[k])[:120],
+                                                                                 repr(ob[k])[:120]))
     return probs[:6]
 
 
